@@ -5,19 +5,17 @@ import ast
 from .common import REAL
 
 EXPLANATION = (
-    "Rules on testtools.testresult.real.StreamResultRouter and StreamToQueue.route_code: "
-    "R-ONE-DESTINATION (typestate counter on the CFG of status(): exactly one forwarding "
-    "<target>.status(**kwargs) on every returning path; target chosen by an if/elif/else in the "
-    "order route-prefix rule, test-id rule, fallback; prefix = first segment of the route code), "
-    "R-SEPARATOR-AGREES (writer StreamToQueue.route_code produces own+SEP+incoming, reader splits on "
-    "the same SEP and a consuming rule strips exactly len(prefix)+len(SEP) characters mapping the "
-    "empty remainder to None; _map_route_code_prefix rejects a prefix containing SEP; all literals "
-    "equal), R-ONLY-OWNED-KEY (the only event field rewritten is route_code, only under "
-    "consume_route), R-SINK-PAIR (startTestRun/stopTestRun iterate the same sink list calling the "
-    "same-named method once per sink; add_rule appends to it iff do_start_stop_run; the immediate "
-    "startTestRun for a rule added mid-run is control-dependent on both the in-run flag and "
-    "do_start_stop_run), R-POLICY-TABLE (exactly the documented policies with the documented "
-    "parameters; unknown policy raises before any state change)."
+    'StreamResultRouter is constructed and driven through histories of add_rule / startTestRun / status / stopTestRun calls '
+    '(ttsa.rules.streamobjects; sinks and fallback are logging objects). R-ONE-DESTINATION: each event reaches exactly one '
+    'sink -- route-prefix rule before test-id rule before fallback, only the first segment selecting -- and an event '
+    'without destination is refused; histories: a rule added after an event with the same route code, a rule replaced, '
+    'several codes under one prefix. R-ONLY-OWNED-KEY: the sink sees every field unchanged; the route code loses exactly '
+    'its first segment under a consuming rule (also when the next segment looks the same; a bare prefix becomes None) and '
+    'is untouched otherwise. R-SEPARATOR-AGREES: an event put through StreamToQueue(code) and then through a consuming rule '
+    'for code arrives with its original route code; a multi-segment prefix is rejected. R-SINK-PAIR: startTestRun / '
+    'stopTestRun reach exactly the sinks registered for them, once per run, over two runs, including a sink that joined in '
+    'the middle of the first; nothing is started outside a run or without do_start_stop_run. R-POLICY-TABLE: unknown '
+    'policies are refused before any state change; the documented ones are accepted.'
 )
 
 R = "StreamResultRouter"
